@@ -35,3 +35,101 @@ Example dry_run_nonvacuous :
   lookup (fs (rr_world (run_patch (ex_opts false) [] (ex_world (bs "a" ++ nlb))))) (bs "f") = Some (Reg (bs "b" ++ nlb) 420) /\
   lookup (fs (rr_world (run_patch (ex_opts true) [] (ex_world (bs "a" ++ nlb))))) (bs "f") = Some (Reg (bs "a" ++ nlb) 420).
 Proof. vm_compute. repeat split; reflexivity. Qed.
+
+(* ===== merged from Properties_PredictRun.v ===== *)
+From PatchV Require Import Base Lines Hunk Options Parser World Driver Proofs_Driver Proofs_Predict Proofs_Sections Proofs_PredictRun Proofs_PredictSections.
+
+(* The patch t starts with a section (its header parses under the format f selected by the options, announces a known
+   format, is not a binary patch) which the real run processes normally from the world w (state st_r afterwards), and what
+   follows it in t ends the run.  Whenever the real run returns an exit status and a report, the dry run from the same
+   world returns the same exit status and the same report text (per-hunk lines and summaries), leaves the tree as it was
+   and only opens files for reading. *)
+Theorem dry_run_predicts_single : forall o f t should p s1 found st_r s2 w w_r code ev w',
+  format_from_options o = Ok f ->
+  parse_patch_header_full (empty_patch f) (strip_size o) (stream_of t) = Ok (should, p, s1, found) ->
+  (if negb found && should then FUnknown else pfmt p) <> FUnknown ->
+  poper p <> OpBinary ->
+  process_section o ds0 should p s1 w = (Ok (st_r, s2), w_r) ->
+  ends_here o f s2 = true ->
+  process_patch o t w = (Ok (code, ev), w') ->
+  exists w'', process_patch (set_dry o) t w = (Ok (code, ev), w'') /\
+              fs w'' = fs w /\ only_reads (trace w) (trace w'') /\
+              code = exit_of st_r /\ ev = events st_r.
+Proof. exact Proofs_PredictRun.dry_run_predicts_single. Qed.
+Print Assumptions dry_run_predicts_single.
+
+(* The same for run_patch: t is the patch text as the run reads it (standard input or the file named by -i), w0 the world
+   after that reading. *)
+Theorem dry_run_predicts_run_single : forall o f stdin w t w0 should p s1 found st_r s2 w_r code ev w',
+  patch_file_bytes o stdin w = (Ok t, w0) ->
+  format_from_options o = Ok f ->
+  parse_patch_header_full (empty_patch f) (strip_size o) (stream_of t) = Ok (should, p, s1, found) ->
+  (if negb found && should then FUnknown else pfmt p) <> FUnknown ->
+  poper p <> OpBinary ->
+  process_section o ds0 should p s1 w0 = (Ok (st_r, s2), w_r) ->
+  ends_here o f s2 = true ->
+  process_patch o t w0 = (Ok (code, ev), w') ->
+  run_patch o stdin w = mkRR code ev w' /\
+  exists w'', run_patch (set_dry o) stdin w = mkRR code ev w'' /\ fs w'' = fs w /\
+              code = exit_of st_r /\ ev = events st_r.
+Proof. exact Proofs_PredictRun.dry_run_predicts_run_single. Qed.
+Print Assumptions dry_run_predicts_run_single.
+
+(* Several sections.  indep_done o f m0 st s w st' s' w' (Proofs_PredictSections.v): the loop of the real run processes zero
+   or more sections completely from (st, s, w) to (st', s', w') (binary sections are skipped with the failure flag set), and
+   each section processed starts with no write deferred and finds in the tree it starts from what it would find in the tree
+   m0: the same file to patch (target_in), with the same stat, and the same stat of its output file (same_view).  That is
+   the independence hypothesis: the earlier sections have not touched this section's files.  fault w = None: no operation
+   failure is pending.  Then the dry run returns the exit status and the report of the real run. *)
+Theorem dry_run_predicts_sections : forall o f t should p s1 found st1 s2 w w1 st' s' w' code ev wf,
+  format_from_options o = Ok f ->
+  fault w = None ->
+  parse_patch_header_full (empty_patch f) (strip_size o) (stream_of t) = Ok (should, p, s1, found) ->
+  (if negb found && should then FUnknown else pfmt p) <> FUnknown ->
+  poper p <> OpBinary ->
+  process_section o ds0 should p s1 w = (Ok (st1, s2), w1) ->
+  indep_done o f (fs w) st1 s2 w1 st' s' w' ->
+  ends_here o f s' = true ->
+  process_patch o t w = (Ok (code, ev), wf) ->
+  exists w'', process_patch (set_dry o) t w = (Ok (code, ev), w'') /\
+              fs w'' = fs w /\ only_reads (trace w) (trace w'') /\
+              code = exit_of st' /\ ev = events st'.
+Proof. exact Proofs_PredictSections.dry_run_predicts_sections. Qed.
+Print Assumptions dry_run_predicts_sections.
+
+Theorem dry_run_predicts_run_sections : forall o f stdin w t w0 should p s1 found st1 s2 w1 st' s' w' code ev wf,
+  patch_file_bytes o stdin w = (Ok t, w0) ->
+  format_from_options o = Ok f ->
+  fault w0 = None ->
+  parse_patch_header_full (empty_patch f) (strip_size o) (stream_of t) = Ok (should, p, s1, found) ->
+  (if negb found && should then FUnknown else pfmt p) <> FUnknown ->
+  poper p <> OpBinary ->
+  process_section o ds0 should p s1 w0 = (Ok (st1, s2), w1) ->
+  indep_done o f (fs w0) st1 s2 w1 st' s' w' ->
+  ends_here o f s' = true ->
+  process_patch o t w0 = (Ok (code, ev), wf) ->
+  run_patch o stdin w = mkRR code ev wf /\
+  exists w'', run_patch (set_dry o) stdin w = mkRR code ev w'' /\ fs w'' = fs w /\
+              code = exit_of st' /\ ev = events st'.
+Proof. exact Proofs_PredictSections.dry_run_predicts_run_sections. Qed.
+Print Assumptions dry_run_predicts_run_sections.
+
+(* the section-level frame property behind it: the dry run of a section reports the same from two states that show the same
+   (nothing deferred) and two worlds (no failure pending) whose trees look the same to the section *)
+Theorem dry_section_frame : forall o st st2 should p s w w2 a s' w',
+  seen st2 = seen st -> deferred_writes st = [] -> deferred_writes st2 = [] ->
+  fault w = None -> fault w2 = None ->
+  same_view o p (fs w) (fs w2) ->
+  process_section (set_dry o) st should p s w = (Ok (a, s'), w') ->
+  exists a2 w2', process_section (set_dry o) st2 should p s w2 = (Ok (a2, s'), w2') /\ seen a2 = seen a.
+Proof. exact Proofs_PredictSections.dry_section_frame. Qed.
+Print Assumptions dry_section_frame.
+
+(* ===== the known finding K-C15-dry-run-series-same-file, as a statement about the model: two plain patches for one file, the
+   second fitting only what the first leaves: the real run exits 0, the dry run 1 (the independence hypothesis indep_done of
+   dry_run_predicts_sections is what excludes it) ===== *)
+Theorem dry_run_series_same_file_refuted :
+  rr_exit (run_patch (Proofs_PredictRun.pr_opts false) [] Proofs_PredictSections.ps_world_same) = 0 /\
+  rr_exit (run_patch (Proofs_PredictRun.pr_opts true) [] Proofs_PredictSections.ps_world_same) = 1.
+Proof. exact Proofs_PredictSections.ps_same_file_not_predicted. Qed.
+Print Assumptions dry_run_series_same_file_refuted.
